@@ -1,3 +1,27 @@
+/// The text of a choice line is kept as written and tokenised again by the
+/// emitter; what it contains (diverts, threads, calls, tags) is checked on the
+/// same tokens.
+fn choice_text_nodes(choice: &Choice) -> Result<Vec<Node>, CompilerError> {
+    let mut nodes = Vec::new();
+    let texts = [
+        Some(&choice.start_text),
+        Some(&choice.choice_only_text),
+        choice.selected_text.as_ref(),
+    ];
+    for text in texts.into_iter().flatten() {
+        if !text.trim().is_empty() {
+            nodes.extend(tokenize_inline_content(text)?);
+        }
+    }
+    let tags = choice
+        .start_tags
+        .iter()
+        .chain(&choice.choice_only_tags)
+        .chain(&choice.selected_tags);
+    nodes.extend(tags.cloned().map(Node::Tag));
+    Ok(nodes)
+}
+
 impl ValidationContext {
     fn validate_nodes_diverts(&self, nodes: &[Node], _scope: &str) -> Result<(), CompilerError> {
         for node in nodes {
@@ -22,6 +46,7 @@ impl ValidationContext {
                 for n in &c.body {
                     self.validate_node_divert(n)?;
                 }
+                self.validate_nodes_diverts(&choice_text_nodes(c)?, "")?;
             }
             Node::Conditional {
                 when_true,
@@ -123,6 +148,7 @@ impl ValidationContext {
                     self.validate_condition_function_calls(condition)?;
                 }
                 self.validate_nodes_function_calls(&choice.body)?;
+                self.validate_nodes_function_calls(&choice_text_nodes(choice)?)?;
             }
             Node::Sequence(sequence) => {
                 for branch in &sequence.branches {
